@@ -454,7 +454,11 @@ def resolve_unwindset(h, build, workdir):
             raise Inconclusive(f"{h.name}: no loop starts at {h.target}:{where[0]} (`{text.strip()}`)")
         chosen += [f"{lid}:{int(n)}" for lid in hit]
     for pat, n in specs:
-        if pat.endswith("@outer"):
+        if re.search(r"#\d+$", pat):
+            # <function substring>#<n>: loop number n of the functions whose pretty name contains the substring
+            fnpat, num = pat.rsplit("#", 1)
+            hit = [lid for lid, desc in ids if lid.endswith("." + num) and fnpat in re.sub(r"<[^<>]*>", "", re.sub(r"<[^<>]*>", "", desc)).replace(" ", "")]
+        elif pat.endswith("@outer"):
             # the loop of that function that comes first in the source (its outermost loop), whatever CBMC numbers it
             fn = pat[:-len("@outer")]
             cand = []
@@ -520,7 +524,11 @@ def kani_verify(harnesses, tier, workdir, build=None):
     for h in harnesses:
         cmd += ["--harness", h.full]
     if special:
-        cmd += ["--cbmc-args", "--unwindset", resolve_unwindset(special[0], build, workdir)]
+        extra = ["--cbmc-args"]
+        st = special[0].meta.get("unwindstart")
+        if st:
+            extra += ["--unwind", st[0].strip()]
+        cmd += extra + ["--unwindset", resolve_unwindset(special[0], build, workdir)]
     logf = os.path.join(workdir, f"kani{tag}.log")
     waves = (len(harnesses) + JOBS - 1) // JOBS
     rc = run_capped(cmd, build.cwd, mem, 900 + per_to * waves + 120, logf)
